@@ -3,7 +3,8 @@ import Vgi.Model.AccessLogEmit
 Line protocol for C39 (one hook per case):
 
   hook <rateBits|none> <thr|-> <q|sync>   construct the hook; SetSampleRate / SetAsync
-  emit <id> <status> <sid> <rid>          AccessLogHook.emit; field tokens: - | n | x<hex>
+  emit <id> <status> <sid> <rid> [extras] AccessLogHook.emit; field tokens: - | n | x<hex>;
+                                          extras: - | x<key>:<field>,… (every other key of the record)
   prime                                   harness primer: enqueue record 0 straight into the queue
   w                                       the writer's current write returns (then it eagerly
                                           receives the next queued record, or exits if closed);
@@ -28,6 +29,21 @@ def parseField (s : String) : Option Field :=
   if s = "-" then some .absent
   else if s = "n" then some .other
   else (parseHexArg s).map Field.str
+
+def parseExtra (s : String) : Option (Bytes × Field) :=
+  match s.splitOn ":" with
+  | [k, v] =>
+    match parseHexArg k, parseField v with
+    | some kb, some f => some (kb, f)
+    | _, _ => none
+  | _ => none
+
+def parseExtras (s : String) : Option (List (Bytes × Field)) :=
+  if s = "-" then some []
+  else (s.splitOn ",").foldr (fun x acc =>
+    match parseExtra x, acc with
+    | some e, some r => some (e :: r)
+    | _, _ => none) (some [])
 
 def settle (s : Sys) : Sys :=
   let s := (step s .recv).getD s
@@ -118,6 +134,13 @@ def step (st : St) (ws : List String) : St × String :=
                        sampleRate := none, dropped := 0 }
       obs st (onAsync (emit h r) settle)
     | _, _, _, _ => (st, "bad-op")
+  | some h, ["emit", id, stt, sid, rid, ex] =>
+    match id.toNat?, parseField stt, parseField sid, parseField rid, parseExtras ex with
+    | some i, some fs, some fsid, some frid, some extras =>
+      let r : Rec := { id := i, status := fs, streamId := fsid, requestId := frid,
+                       sampleRate := none, dropped := 0, extra := extras }
+      obs st (onAsync (emit h r) settle)
+    | _, _, _, _, _ => (st, "bad-op")
   | some h, ["prime"] =>
     match h.async with
     | some a => obs st { h with async := some (settle (enqueue a primer)) }
